@@ -176,6 +176,26 @@ def enumerate_records() -> Dict:  # noqa: WPS231
                         results.append(rec)
                     elif len(samples) < 4 and n_cases % 97 == 0:
                         samples.append({"id": ident, "entry_point": entry_point, "verdict": res["verdict"], "how": res["how"], "corrupted_entry": bad})
+    # the file itself and the entry itself replaced by every other JSON kind
+    fileio.write_contracts_to_file([base_contracts()[0][1]], ["plain"], "top.json", machine_representation=True)
+    good = json.loads(fs.files["top.json"])
+    for level, original in (("file", good), ("entry", good[0])):
+        k0 = kind_of(original)
+        for other, reps in KIND_REPS.items():
+            if other == k0:
+                continue
+            for rep in reps:
+                n_cases += 1
+                doc = rep if level == "file" else [rep]
+                fs.files["bad.json"] = json.dumps(doc, indent=2)
+                res = classify(fileio.read_contracts_from_file, "bad.json")
+                by_verdict[res["verdict"]] = by_verdict.get(res["verdict"], 0) + 1
+                # an empty list is a valid (empty) file; a non-empty wrong kind must be rejected
+                if res["verdict"] != "rejected":
+                    act = "to_" + other + (":numeric" if rep == "7" else "")
+                    results.append({"id": "%s %s" % (level, act), "entry_point": "read_contracts_from_file", "verdict": res["verdict"], "how": res["how"],
+                                    "where": res.get("where"), "file_text": fs.files["bad.json"],
+                                    "key": "E3 read_contracts_from_file whole-%s %s -> %s" % (level, act, res["how"])})
     # a file with two entries, the first one valid: corruptions of the second entry must still reject the file
     first = base_contracts()[0]
     second = base_contracts()[2]
